@@ -45,7 +45,7 @@ func (f *fakeRT) record(addr string) error {
 	f.mu.Unlock()
 	for t0 := time.Now(); d > 0 && time.Since(t0) < d; {
 	}
-	if addr == "" || !up {
+	if !up {
 		return rpc.ErrDial
 	}
 	return nil
@@ -214,6 +214,7 @@ func (r *lbRun) update(addrs []string) {
 // release one held check with the health the harness chooses
 func (r *lbRun) checkRet(w *waiter) {
 	addr := w.tag.(string)
+	r.e.inflight(map[string]interface{}{"history_so_far": r.replay(), "next": "a detector check of " + addr + " returns"})
 	before, sb0 := r.snap()
 	ok := r.rt.up(addr)
 	cur := r.pingGen[w] == r.gen
@@ -278,7 +279,10 @@ func (r *lbRun) checkRouted(a string) {
 	d := r.director
 	r.dmu.Unlock()
 	if a == "" {
-		return // the documented "no target" path of the non-blocking call forms
+		// Update drops empty strings, so the empty address is never a target, and this harness routes
+		// through Call only (the non-blocking forms have a documented "no target" path that uses it)
+		r.e.fail("C16-routed-to-empty-address", "a Call was sent to the empty address, which is not a target (Update ignores empty strings)", r.replay())
+		return
 	}
 	if !r.current[a] && a != d {
 		r.e.fail("C16-routed-to-removed-target", fmt.Sprintf("a call was sent to %q which is neither in the current target list nor the Director's answer", a), r.replay())
@@ -301,6 +305,7 @@ func (r *lbRun) collectWaiters() int {
 
 // one routing decision through Client.Call
 func (r *lbRun) route() {
+	r.e.inflight(map[string]interface{}{"history_so_far": r.replay(), "next": "Call"})
 	before, sb := r.snap()
 	nlog := len(r.rt.log)
 	w := &lbWaiter{done: make(chan error, 1)}
@@ -482,6 +487,7 @@ func (r *lbRun) script() {
 	for _, a := range r.addrs {
 		r.rt.health[a] = e.Rng.Intn(4) != 0
 	}
+	r.rt.health[""] = e.Rng.Intn(3) == 0 // a transport that would happily "reach" the empty address
 	pick := func() []string {
 		var l []string
 		k := e.Rng.Intn(5)
